@@ -165,7 +165,15 @@ func (h *c11H) observe(kind string, k, n int, berr error, human string) error {
 	h.clearLocks()
 	_, _, e2 := h.e.cli("prune", "--max-unused", "0")
 	h.clearLocks()
-	later := e1 == nil && e2 == nil && h.checkOK()
+	later := e1 == nil && e2 == nil
+	if later {
+		if h.c.thorough() {
+			later = h.checkOK()
+		} else {
+			_, _, e3 := h.e.cli("check", "--no-lock")
+			later = e3 == nil
+		}
+	}
 	h.c.Case(kind, true, k, fmt.Sprintf("C11m.CCrash %s %s %s %s %s", term, coqBool(reported), coqBool(ck), coqBool(rs), coqBool(later)),
 		fmt.Sprintf("%s %s at %d/%d: backup err=%v snapshots present=%d new=%v -> check=%v restore=%v later backup+prune=%v", h.name, human, k, n, berr != nil, npresent, newSnap, ck, rs, later))
 	// forget harness-side knowledge of snapshots created in this probe
@@ -180,7 +188,7 @@ func engineC11(c *vctx) error {
 	origFull := index.Full
 	defer func() { index.Full = origFull }()
 	nh := c.n(2, 24)
-	maxPref := 5
+	maxPref := 4
 	if c.thorough() {
 		maxPref = 0
 	}
@@ -206,7 +214,11 @@ func engineC11(c *vctx) error {
 			index.Full = func(idx *index.Index) bool { return len(idx.Packs()) >= 1 }
 		}
 		src := filepath.Join(h.root, "srcnew")
-		if err := h.bigTree(src, prev, 5+rng.intn(2)); err != nil {
+		mb := 5 + rng.intn(2)
+		if !c.thorough() && !multi {
+			mb = 0 // quick: the single-index history stays small (one data pack + one tree pack)
+		}
+		if err := h.bigTree(src, prev, mb); err != nil {
 			return err
 		}
 		h.lastSrc = src
@@ -299,15 +311,12 @@ func engineC11(c *vctx) error {
 			}
 		}
 		// one op fails permanently, everything else keeps working
-		nf := 2
+		nf := 0
 		if c.thorough() {
 			nf = 8
 		}
 		for f := 0; f < nf; f++ {
 			k := rng.intn(n)
-			if f == 0 {
-				k = n - 1 // the snapshot file itself
-			}
 			if err := c11Sync(s0, h.e.repo); err != nil {
 				return err
 			}
@@ -325,6 +334,39 @@ func engineC11(c *vctx) error {
 			_, _, berr := h.e.cli("backup", "--quiet", "--pack-size", "4", src)
 			c.Hist("fail-one")
 			if err := h.observe("failone-"+kind, k, n, berr, "single failed op"); err != nil {
+				return err
+			}
+		}
+		// whole classes of ops fail permanently while the rest keeps working: every index save (the
+		// flush cannot complete), the last pack (saved by the flush), the snapshot file
+		for _, mode := range []string{"all-index-saves", "last-pack-save", "snapshot-save"} {
+			if err := c11Sync(s0, h.e.repo); err != nil {
+				return err
+			}
+			h.e.rec.Reset()
+			packs := 0
+			h.e.rec.OnOp = func(o *vop) error {
+				if o.Op != "Save" {
+					return nil
+				}
+				fail := false
+				switch {
+				case mode == "all-index-saves" && o.Type == backend.IndexFile:
+					fail = true
+				case mode == "last-pack-save" && o.Type == backend.PackFile:
+					packs++
+					fail = packs >= npk
+				case mode == "snapshot-save" && o.Type == backend.SnapshotFile:
+					fail = true
+				}
+				if fail {
+					return backoff.Permanent(fmt.Errorf("verif: injected permanent failure"))
+				}
+				return nil
+			}
+			_, _, berr := h.e.cli("backup", "--quiet", "--pack-size", "4", src)
+			c.Hist("fail-" + mode)
+			if err := h.observe("fail-"+mode+"-"+kind, n, n, berr, "failing "+mode); err != nil {
 				return err
 			}
 		}
